@@ -158,7 +158,7 @@ func doSearch(expr string, docText string, unordered bool) outcome {
 		c := o.base
 		if strings.Contains(c, "?") || strings.Contains(c, "nil[") || strings.Contains(c, "nil{") {
 			o.flags = append(o.flags, "nonjson")
-		} else if validStrings(res) {
+		} else if validStrings(res) && depthOf(res, 0) < 1000 { // encoding/json itself refuses very deep nesting
 			js, merr := json.Marshal(res)
 			if merr != nil {
 				o.flags = append(o.flags, "nomarshal")
@@ -261,4 +261,26 @@ func execLine(line string) outcome {
 		}
 	}
 	return outcome{base: "bad-request"}
+}
+
+func depthOf(v interface{}, d int) int {
+	if d > 1000 {
+		return d
+	}
+	m := d
+	switch t := v.(type) {
+	case []interface{}:
+		for _, e := range t {
+			if x := depthOf(e, d+1); x > m {
+				m = x
+			}
+		}
+	case map[string]interface{}:
+		for _, e := range t {
+			if x := depthOf(e, d+1); x > m {
+				m = x
+			}
+		}
+	}
+	return m
 }
